@@ -47,6 +47,7 @@ type deferSite struct {
 	args  []sval
 	binds []sval
 	translated bool
+	argCells []*Cell
 }
 
 // sval: an SSA/spec value: SMT term + Go type + optional static lvalue.
@@ -380,6 +381,10 @@ func (f *frame) load(lv *lval) Expr {
 	case lvField:
 		v := t.newTemp("ld", Select(lv.heap, lv.idx))
 		t.assumeInv(v, lv.typ)
+		if _, isSlice := lv.typ.Underlying().(*types.Slice); isSlice && !t.th.bv {
+			// a slice held in a field points into memory that is already allocated
+			t.cur.Assume(Implies(ILt(t.th.SPtr(v), IntLit(embArrBase)), ILe(IAdd(t.th.SPtr(v), t.th.SCap(v)), t.allocTop())))
+		}
 		return v
 	case lvElem:
 		v := t.newTemp("ld", Select(lv.heap, lv.idx))
@@ -441,6 +446,7 @@ func (t *fnTrans) checkWrite(mem *Cell, lo, hi Expr, what string) {
 		alts = append(alts, And(th.ALe(w.lo, lo), th.ALe(hi, w.hi)))
 	}
 	t.cur.Assert(Or(alts...), "frame/writes/"+what, t.fc.Props)
+	t.cur.Cmds[len(t.cur.Cmds)-1].Meta = map[string]string{"pos": t.posString()}
 }
 
 func (t *fnTrans) checkModField(heap *Cell, obj Expr) {
@@ -449,12 +455,15 @@ func (t *fnTrans) checkModField(heap *Cell, obj Expr) {
 	}
 	var alts []Expr
 	alts = append(alts, t.isFreshObj(obj))
+	// a field of the nil object cannot be written (that would be a nil dereference, checked separately)
+	alts = append(alts, Eq(obj, t.th.AddrLit(0)))
 	for _, m := range t.modFields {
 		if m.heap.Name == heap.Name {
 			alts = append(alts, Eq(m.obj, obj))
 		}
 	}
 	t.cur.Assert(Or(alts...), "frame/modifies/"+strings.TrimPrefix(heap.Name, "H_"), t.fc.Props)
+	t.cur.Cmds[len(t.cur.Cmds)-1].Meta = map[string]string{"pos": t.posString()}
 }
 
 // isFreshObj: obj (possibly an embedded sub-object id) was allocated by this activation.
@@ -551,6 +560,21 @@ func (f *frame) translateBody(entry *Block) {
 		for _, in := range b.Instrs {
 			if d, ok := in.(*ssa.Defer); ok {
 				ds := &deferSite{instr: d, flag: &Cell{fmt.Sprintf("%sdeferred$%d", f.prefix, len(f.defers)), SBool}}
+				// argument values live in cells that exist on every path (a defer may be conditional)
+				for i, a := range d.Call.Args {
+					if pt, isPtr := a.Type().Underlying().(*types.Pointer); isPtr {
+						switch pt.Elem().Underlying().(type) {
+						case *types.Struct, *types.Array:
+							// object id / array base: an ordinary value
+						default:
+							ds.argCells = append(ds.argCells, nil) // pointer to a scalar: static lvalue
+							continue
+						}
+					}
+					c := &Cell{fmt.Sprintf("%sdefarg$%d$%d", f.prefix, len(f.defers), i), t.th.SortOf(a.Type())}
+					entry.Assign(c, t.th.Zero(a.Type()))
+					ds.argCells = append(ds.argCells, c)
+				}
 				f.defers = append(f.defers, ds)
 				entry.Assign(ds.flag, False)
 			}
@@ -646,6 +670,18 @@ func (f *frame) instr(in ssa.Instruction) {
 		f.unop(x)
 	case *ssa.BinOp:
 		a, b := f.val(x.X), f.val(x.Y)
+		if (a.e == nil && a.lv != nil) || (b.e == nil && b.lv != nil) {
+			// address of a local or field compared with nil: never nil
+			if x.Op == token.EQL {
+				f.setVal(x, sval{e: False, typ: x.Type()})
+				return
+			}
+			if x.Op == token.NEQ {
+				f.setVal(x, sval{e: True, typ: x.Type()})
+				return
+			}
+			fail("arithmetic on a pointer to a scalar")
+		}
 		res, side, err := th.BinOp(x.Op, a.e, b.e, x.X.Type(), x.Y.Type(), func(base string, s Sort) Expr {
 			return t.havocTemp(base, s, nil)
 		})
